@@ -232,7 +232,7 @@ def iter_plan(cmd, rule, oracle, ofq, oft):
 
 PLANS["C06"] = iter_plan(
     "C06",
-    "(1) exhaustive histories: every subset of match positions in haystacks of length <= L (quick 9, thorough 12) x "
+    "(1) exhaustive histories: every subset of match positions in haystacks of length <= L (quick 10, thorough 12) x "
     "every next/next_back string of length matches+2, plus one history per subset with count() on a clone after "
     "every step and a continue-on-clone in the middle, for Memchr/Memchr2/Memchr3 and the iter() of every "
     "One/Two/Three backend; (2) haystacks of length 16..=140 with up to 8 matches clustered on vector/unrolled-loop "
@@ -240,7 +240,7 @@ PLANS["C06"] = iter_plan(
     "count ops) over long dense/sparse haystacks. size_hint is checked after every operation. Non-trivial = "
     "haystack non-empty.",
     "model = deque of all matching positions: next pops the front, next_back the back; size_hint must bracket the deque length",
-    48, 8)
+    32, 8)
 
 PLANS["C07"] = iter_plan(
     "C07",
@@ -250,7 +250,7 @@ PLANS["C07"] = iter_plan(
     "count() on a clone, for every (i, j) up to a cap, on haystacks with 1..=all matching bytes. Non-trivial = "
     "haystack non-empty.",
     "oracle = number of bytes equal to the needle in the iterator's remaining window (deque model)",
-    24, 6)
+    16, 6)
 
 PLANS["C08"] = iter_plan(
     "C08",
@@ -538,7 +538,7 @@ PLANS["C17"] = {
 
 PLANS["C18"] = {
     "rule": (
-        "is_equal and is_equal_raw on lengths 0..=L (quick 40, thorough 80): equal, one differing byte at every position with "
+        "is_equal and is_equal_raw on lengths 0..=L (quick 64, thorough 80): equal, one differing byte at every position with "
         "three different flipped bits, two differing bytes; x all 64 (alignment of x mod 8, alignment of y mod 8) pairs plus "
         "guard-right/guard-left combinations and exact heap; different lengths; is_prefix / is_suffix for all (hlen, nlen) "
         "up to 28/40 incl. nlen > hlen, true prefix/suffix and a difference at every needle position. Non-trivial = non-empty." + distinct_note()),
